@@ -21,6 +21,7 @@ import (
 	authtypes "github.com/cosmos/cosmos-sdk/x/auth/types"
 	consensustypes "github.com/cosmos/cosmos-sdk/x/consensus/types"
 	distrtypes "github.com/cosmos/cosmos-sdk/x/distribution/types"
+	crisistypes "github.com/cosmos/cosmos-sdk/x/crisis/types"
 	govv1 "github.com/cosmos/cosmos-sdk/x/gov/types/v1"
 	paramproposal "github.com/cosmos/cosmos-sdk/x/params/types/proposal"
 	upgradetypes "github.com/cosmos/cosmos-sdk/x/upgrade/types"
@@ -350,6 +351,8 @@ func (bc *BuildCtx) Build(s *MsgSpec) sdk.Msg {
 			panic(err)
 		}
 		return m
+	case "crisis.VerifyInvariant":
+		return &crisistypes.MsgVerifyInvariant{Sender: s.f("sender"), InvariantModuleName: s.f("module"), InvariantRoute: s.f("route")}
 	case "gov.SubmitSpend":
 		// a governance proposal that spends from the community pool (to any address, the burn address included)
 		inner := &distrtypes.MsgCommunityPoolSpend{Authority: sdk.AccAddress(authtypes.NewModuleAddress("gov")).String(), Recipient: s.f("recipient"), Amount: coins(s.Coins2)}
